@@ -163,6 +163,23 @@ func errKindIndex(name string) int {
 
 // makeErr builds the error value of the named kind ("" = plain; an unknown name = a plain error naming it).
 func makeErr(name string, ctx context.Context) error {
+	// the error of the ctx handed to the fetch itself (what an issuer client that honours its ctx returns
+	// when that ctx is done: Run's ctx was cancelled / its deadline passed while the request was in
+	// flight); with a live ctx these degrade to a plain error.  Used by the readiness family only.
+	switch name {
+	case "own-ctx", "own-ctx-wrapped", "own-ctx-cause":
+		e := ctx.Err()
+		if e == nil {
+			return errors.New("scripted issuer failure (the fetch ctx is alive)")
+		}
+		switch name {
+		case "own-ctx-wrapped":
+			return fmt.Errorf("rpc SignCertificate: %w", e)
+		case "own-ctx-cause":
+			return fmt.Errorf("request abandoned: %w", context.Cause(ctx))
+		}
+		return e
+	}
 	i := errKindIndex(name)
 	if i < 0 {
 		return errors.New("scripted issuer failure (unknown error kind " + name + ")")
